@@ -175,7 +175,7 @@ class Inference(ABC):
         Conditional dictionay, timeout in s and boolen indication if parallel inferences are to be performed.
 
     Returns:
-        result dictionary mapping query string -> (index, result, timed_out, time_ms)
+        result dictionary mapping query index -> (index, result, timed_out, time_ms)
     """
 
     def inference(
@@ -183,7 +183,7 @@ class Inference(ABC):
         queries: dict[int, Conditional],
         timeout: int,
         multi_inference: bool,
-    ) -> dict[str, tuple[int, bool, bool, float]]:
+    ) -> dict[int, tuple[int, bool, bool, float]]:
         """
         Run inference over a set of queries.
 
@@ -199,7 +199,7 @@ class Inference(ABC):
         Returns
         -------
         dict
-            A mapping ``{str(query): (index, result, timed_out, time_ms)}``.
+            A mapping ``{index: (index, result, timed_out, time_ms)}``.
         """
         # INFO-level logging for inference operation start
         logger.info(
@@ -220,8 +220,8 @@ class Inference(ABC):
         ):
             raise Exception("preprocess belief_base before running inference")
         if self.epistemic_state["preprocessing_timed_out"]:
-            result_dict: dict[str, tuple[int, bool, bool, float]] = {
-                str(q): (i, False, False, 0.0) for i, q in queries.items()
+            result_dict: dict[int, tuple[int, bool, bool, float]] = {
+                i: (i, False, False, 0.0) for i, q in queries.items()
             }
         elif multi_inference:
             result_dict = self.multi_inference(queries, timeout)
@@ -267,7 +267,7 @@ class Inference(ABC):
 
     def single_inference(
         self, queries: dict[int, Conditional], timeout: int
-    ) -> dict[str, tuple[int, bool, bool, float]]:
+    ) -> dict[int, tuple[int, bool, bool, float]]:
         """
         Evaluate queries sequentially.
 
@@ -281,18 +281,18 @@ class Inference(ABC):
         Returns
         -------
         dict
-            A result mapping ``{str(query): (index, result, timed_out, time_ms)}``.
+            A result mapping ``{index: (index, result, timed_out, time_ms)}``.
         """
-        result_dict: dict[str, tuple[int, bool, bool, float]] = {}
+        result_dict: dict[int, tuple[int, bool, bool, float]] = {}
         for index, query in queries.items():
             deadline = Deadline.from_duration(timeout) if timeout else None
             try:
                 start_time = perf_counter_ns() / 1e6
                 result = self.general_inference(query, deadline=deadline)
                 time = perf_counter_ns() / 1e6 - start_time
-                result_dict[str(query)] = (index, result, False, time)
+                result_dict[index] = (index, result, False, time)
             except TimeoutError:
-                result_dict[str(query)] = (
+                result_dict[index] = (
                     index,
                     False,
                     True,
@@ -318,7 +318,7 @@ class Inference(ABC):
 
     def multi_inference(
         self, queries: dict[int, Conditional], timeout: int
-    ) -> dict[str, tuple[int, bool, bool, float]]:
+    ) -> dict[int, tuple[int, bool, bool, float]]:
         """
         Evaluate queries in parallel using multiprocessing.
 
@@ -332,7 +332,7 @@ class Inference(ABC):
         Returns
         -------
         dict
-            A result mapping ``{str(query): (index, result, timed_out, time_ms)}``.
+            A result mapping ``{index: (index, result, timed_out, time_ms)}``.
         """
         indices = queries.keys()
 
@@ -366,8 +366,8 @@ class Inference(ABC):
                     )
 
             # results = [mp_return_dict[i] if i in return_dict else (str(q), (i, False, True, 0))  for i, q in queries.items()]
-            result_dict: dict[str, tuple[int, bool, bool, float]] = {
-                str(q): mp_return_dict[i]
+            result_dict: dict[int, tuple[int, bool, bool, float]] = {
+                i: mp_return_dict[i]
                 if i in mp_return_dict
                 else (i, False, True, float(timeout * 1000))
                 for i, q in queries.items()
